@@ -3583,12 +3583,24 @@ class StateEngine(object):
         check that state transitions only occur within the correct "States".
         """
         force_full_lookup = "Branch" in context["State"]
-        state, current_state_machine, state_path = find_state(
-            ASL["States"], current_state, force_full_lookup
+        state, current_state_machine, state_path = (
+            find_state(ASL["States"], current_state, force_full_lookup)
+            if isinstance(current_state, str) else (None, None, [])
         )
         if state == None:  # state should be valid by this point
             message = ("{} attempted a transition to a non-existent "
                        "state \"{}\": Illegal State Machine.").format(
+                        execution_arn, current_state
+                      )
+            self.logger.error(message)
+            handle_error({}, "States.Runtime", message)
+            self.event_dispatcher.acknowledge(id)
+            return
+
+        if not isinstance(state, dict) or not isinstance(state.get("Type"), str):
+            message = ("{} attempted a transition to the state \"{}\", which "
+                       "is not an object with a string Type field: "
+                       "Illegal State Machine.").format(
                         execution_arn, current_state
                       )
             self.logger.error(message)
